@@ -219,8 +219,9 @@ void exercise(const std::string& path, size_t image_size, int mode, bool verify,
             carquet_status_t st = cq::reader_column_statistics(rd, g, c, &cs);
             if (!in_range) SIM_CHECK(st != CARQUET_OK, "contract.out_of_range_index_accepted", "column_statistics(rg=%d of %d, col=%d of %d) returned OK", g, nrgs, c, ncols);
             if (st == CARQUET_OK && cs.has_min_max) { volatile uint8_t sink = 0; if (cs.min_value_size > 0) sink ^= ((const uint8_t*)cs.min_value)[(size_t)cs.min_value_size - 1]; if (cs.max_value_size > 0) sink ^= ((const uint8_t*)cs.max_value)[(size_t)cs.max_value_size - 1]; (void)sink; }
-            uint8_t probe[16] = {1, 2, 3, 4, 5, 6, 7, 8, 9, 10, 11, 12, 13, 14, 15, 16}; bool mm = true;
+            bool mm = true;
             int32_t psz = (int32_t)(r.below(2) ? 8 : 1 + r.below(16));
+            exec::Buf pb((size_t)psz); uint8_t* probe = pb.get(); for (int32_t q = 0; q < psz; q++) probe[q] = (uint8_t)(q + 1);     // exactly value_size bytes: reading more is an over-read
             st = cq::reader_row_group_matches(rd, g, c, (carquet_compare_op_t)r.below(6), probe, psz, &mm);
             if (!in_range) SIM_CHECK(st != CARQUET_OK, "contract.out_of_range_index_accepted", "row_group_matches(rg=%d of %d, col=%d of %d) returned OK", g, nrgs, c, ncols);
             if (c >= 0 && c < ncols) { int32_t out[8]; int32_t n = cq::reader_filter_row_groups(rd, c, (carquet_compare_op_t)r.below(6), probe, psz, out, 8); SIM_CHECK(n <= 8, "contract.filter_overflows_output", "filter_row_groups(max 8) returned %d", n); }
